@@ -1679,6 +1679,21 @@ def check_case(run: Run, case: dict, ans: str, impl: Impl) -> None:
                 if got != oS[k] or (oM and got != oM[k]):
                     dis(f'operator:{key}:{expr}', got, model=oM[k] if oM else None, spec=oS[k], tags=flags,
                         site='arithmetic / comparison on a typed node', extra={'expr': expr})
+    # ---- a predicate that READS the typed value: //*[. = 'lit'] (does not erase; model tie) --------
+    for k, lit in enumerate(case.get('valeq', [])):
+        m = A.get('v%d' % k)
+        if m is None or "'" in lit:
+            continue
+        xp = f"//*[not(*)][. = '{lit}']"
+        with_s = run_select(impl, xp, True, False)
+        without = run_select(impl, xp, False, False)
+        with_s = 'err' if with_s.startswith('ERR') else with_s
+        without = 'err' if without.startswith('ERR') else without
+        st.count('value-comparison:checked')
+        st.count('value-comparison:' + ('same' if with_s == without else 'differs-with-schema'))
+        if with_s != m['M'] or without != m['S']:
+            dis(f'value-comparison-model:{k}', f'{with_s}|{without}', model=f"{m['M']}|{m['S']}", spec=None,
+                site='atomization of typed nodes in a general comparison', extra={'path': xp})
     # ---- node selection with / without the schema ----------------------------------------------
     for k, (dummy, xp, _toks) in enumerate(case['paths']):
         m = A.get('p%d' % k)
@@ -1714,7 +1729,7 @@ def check_case(run: Run, case: dict, ans: str, impl: Impl) -> None:
 # ======================================================================================
 # cases
 # ======================================================================================
-def finish_case(sch: Schema, inst: dict, paths: list, lib: str, iof_rate: float) -> dict | None:
+def finish_case(sch: Schema, inst: dict, paths: list, lib: str, iof_rate: float, valeq: tuple = ()) -> dict | None:
     import lxml.etree as LE
     xml = to_xml(inst)
     root = LE.fromstring(xml.encode())
@@ -1735,9 +1750,10 @@ def finish_case(sch: Schema, inst: dict, paths: list, lib: str, iof_rate: float)
     for dummy, e in paths:
         qs.append((dummy, path_xpath(e), expr_tokens(strip_abbr(e))))
     line = ' '.join(['S'] + sch.tokens() + ['T'] + forest_tokens(root) + ['Q', str(len(qs))] +
-                    [t for d, _, toks in qs for t in ['P', '1' if d else '0'] + toks])
+                    [t for d, _, toks in qs for t in ['P', '1' if d else '0'] + toks] +
+                    (['W', str(len(valeq))] + [enc(v) for v in valeq] if valeq else []))
     return {'version': sch.version, 'xsd': sch.xsd(), 'xml': xml, 'lib': lib, 'paths': qs, 'line': line,
-            'expected_types': expected, 'expected_attrs': exp_attrs, 'iof_rate': iof_rate, '_gen': (sch, inst)}
+            'expected_types': expected, 'expected_attrs': exp_attrs, 'iof_rate': iof_rate, 'valeq': list(valeq), '_gen': (sch, inst)}
 
 
 def gen_case(rng, quick: bool) -> dict | None:
@@ -1756,7 +1772,8 @@ def gen_case(rng, quick: bool) -> dict | None:
     # two fixed probes of the `*` branch
     paths.append((True, ('s', ('s', ('r',), 'ds', ('nd',), ('t',), ('t',), 'abbr'), 'c', ('*',), ('t',), ('t',))))   # //*
     paths.append((False, ('s', ('r',), 'c', ('*',), ('t',), ('t',))))                                             # /* on a document
-    return finish_case(sch, inst, paths, rng.choice(['lxml', 'lxml', 'etree']), 0.18)
+    valeq = (rng.choice(['a b', 'x', 'zz', '7', 'true', 'end', 'c']),) if rng.random() < 0.3 else ()
+    return finish_case(sch, inst, paths, rng.choice(['lxml', 'lxml', 'etree']), 0.18, valeq=valeq)
 
 
 # ======================================================================================
@@ -2047,7 +2064,7 @@ def corpus_cases() -> list[dict]:
     for ver in ('1.0', '1.1'):
         for lib in ('lxml', 'etree'):
             s, inst = fixed_schema(ver)
-            out.append(finish_case(s, inst, paths, lib, 1.0))
+            out.append(finish_case(s, inst, paths, lib, 1.0, valeq=('a b', ' x ', '7', 'true', 'zz')))
     return out
 
 
